@@ -1082,6 +1082,20 @@ func (kcp *KCP) SetMtu(mtu int) int {
 		return -1
 	}
 
+	// segments already queued were cut to the previous mss and cannot be
+	// re-fragmented; refuse an mtu they no longer fit into.
+	mss := mtu - IKCP_OVERHEAD
+	for seg := range kcp.snd_queue.ForEach {
+		if len(seg.data) > mss {
+			return -1
+		}
+	}
+	for seg := range kcp.snd_buf.ForEach {
+		if len(seg.data) > mss {
+			return -1
+		}
+	}
+
 	kcp.mtu = uint32(mtu)
 	kcp.mss = kcp.mtu - IKCP_OVERHEAD
 	kcp.buffer = make([]byte, (mtu+IKCP_OVERHEAD)*3)
